@@ -41,8 +41,30 @@ def boom_unprintable():
     raise Unprintable()
 
 
+class NoRepr:
+    def __repr__(self):
+        raise RuntimeError('no repr either')
+
+
+class Unshowable(Exception):
+    # neither form can be produced: what KeyError(key) is like for a key whose repr fails
+    def __str__(self):
+        raise RuntimeError('this error has no text')
+
+    def __repr__(self):
+        raise RuntimeError('this error has no repr')
+
+
+def boom_unshowable():
+    raise Unshowable()
+
+
+def boom_key():
+    return {}[NoRepr()]
+
+
 HOST_GLOBALS = {'G': 5, 'GFLAG': True, 'GOFF': False, 'GLIST': [1, 2, 3], 'boom': boom, 'boom_base': boom_base,
-                'boom_unprintable': boom_unprintable,
+                'boom_unprintable': boom_unprintable, 'boom_unshowable': boom_unshowable, 'boom_key': boom_key,
                 'helper': helper, '__name__': 'c10_host'}
 
 BOOL_CONDS = ['y', 't', 'not y', 'y and t', 'G > 50', 'G == x', 'x > 3', 'flag', 'not flag', 'x % 2 == 0', 'flag and x > 1', 'G > x', 'GFLAG', 'GOFF', 'True', 'False',
@@ -51,10 +73,13 @@ BOOL_CONDS = ['y', 't', 'not y', 'y and t', 'G > 50', 'G == x', 'x > 3', 'flag',
               "s == 'a  b'", "'  ' in s", "'\t' in s", "s == 'a b'"]
 BLANK_CONDS = ['', '  ']
 FAIL_CONDS = ['yes', 'true', 'Y', '1/0', 'undefined_name', 'd[1]', "boom('true')", "boom('yes')", "boom('1')", "boom('t')", 'boom_base()',
-              'x.nope', 'x >', ')(', "d['y']", "boom('false')", 'int(s)', 'boom_unprintable()']
+              'x.nope', 'x >', ')(', "d['y']", "boom('false')", 'int(s)', 'boom_unprintable()',
+              'boom_unshowable()', 'boom_key()']
+FAILING_WATCHES = ['1/0', 'nope', 'x +', 'd[1]', 'boom_base()', "boom('w')", 'x.nope', 'boom_unprintable()',
+                   'boom_unshowable()', 'boom_key()']
 AGENT_ONLY = ['uuid', 'deep', 'time_ns', 'FrameCollector', 'LocationAction', 'TriggerContext', 'VariableCacheProvider']
 WATCHES = ['x', 'G', 'y', 'helper', 'G + 1', 'GLIST', 'helper(x)', 'len(s)', 'x + G', 's', 'flag', '1/0', 'nope', 'x +', 'd[1]',
-           'boom_base()', "boom('w')", 'x.nope', 'boom_unprintable()',
+           'boom_base()', "boom('w')", 'x.nope', 'boom_unprintable()', 'boom_unshowable()', 'boom_key()',
            # the two namespaces themselves: what is local and what is global at that line
            'sorted(locals())', 'len(locals())', "globals()['G']", "'G' in locals()", "'x' in globals()", 'sorted(dir())',
            # expression text as a user types it: blanks around it are not part of the expression
@@ -115,7 +140,10 @@ class C10(Prop):
             # further actions asked for by the same tracepoint (same condition, same budget)
             'also': st.lists(st.sampled_from(['metric', 'span']), max_size=2, unique=True),
             'watches': st.one_of(st.lists(st.sampled_from(WATCHES), max_size=3, unique=True),
-                                st.lists(st.sampled_from(AGENT_ONLY + ['G', 'x + G']), min_size=1, max_size=3, unique=True)),
+                                st.lists(st.sampled_from(AGENT_ONLY + ['G', 'x + G']), min_size=1, max_size=3, unique=True),
+                                # a watch that fails costs that watch only - whatever the error is like
+                                st.lists(st.sampled_from(FAILING_WATCHES + ['x', 'G']), min_size=1, max_size=3,
+                                         unique=True)),
         })
 
     def run_case(self, recipe):
